@@ -86,6 +86,22 @@ theorem C09_dependency_checked (m : List (Cbor × Cbor)) (name : String) :
     | none => rfl
     | some x => cases x <;> simp_all
 
+/-- what is accepted as a dependency is an envelope: CBOR tag 107 of a map (a tagged array, another tag number, any other item is refused -
+also under omit-signing, where nothing else would look at it) -/
+theorem C09_dependency_is_envelope (m : List (Cbor × Cbor)) (name : String) (dep : Cbor) (h : loadDependency m name = .ok dep) :
+    ∃ b mm, Cbor.lookup (Cbor.text name) m = some (.bstr b) ∧ loads b = some (.tag 107 (.map mm)) ∧ dep = .tag 107 (.map mm) := by
+  unfold loadDependency at h
+  split at h
+  · cases h
+  · rename_i b hb
+    split at h
+    · cases h
+    · rename_i mm hl
+      simp only [Except.ok.injEq] at h
+      exact ⟨b, mm, hb, hl, h.symm⟩
+    · cases h
+  · cases h
+
 /-! ### nothing but the wrapper and the named dependencies changes -/
 
 /-- keys that are "unrelated" to `k'` for the purpose of lookup: anything equal to `k'` is different from `k` -/
